@@ -190,13 +190,21 @@ fn main() {
         let ap = inst.random_abstract(nops, live, 3);
         progs.push((inst.instantiate(&ap), mode));
     }
+    // directed families: the same immediate on both sides of every opcode; every opcode at the rounding / domain boundaries
+    let ndirected = {
+        let d = pgen::directed_programs();
+        let n = d.len();
+        progs.extend(d.into_iter().map(|(p, m, _)| (p, m)));
+        n
+    };
+    let first_directed = progs.len() - ndirected;
     let all_lens: Vec<usize> = (0..=35).collect();
     let quick_lens = [0usize, 1, 5, 7, 8, 9, 15, 16, 17, 23, 31, 32, 33, 35];
     for (k, (p, mode)) in progs.iter().enumerate() {
         if p.ssa.len() <= 90 {
             nodes(&mut cx, p, &mut rng, *mode);
         }
-        let lens: Vec<usize> = if !quick || k % 10 == 0 { all_lens.clone() } else { (0..4).map(|i| quick_lens[(k + i * 5) % quick_lens.len()]).collect() };
+        let lens: Vec<usize> = if k >= first_directed { vec![35, 9, 3] } else if !quick || k % 10 == 0 { all_lens.clone() } else { (0..4).map(|i| quick_lens[(k + i * 5) % quick_lens.len()]).collect() };
         e2e(&mut cx, p, &mut rng, *mode, &lens);
     }
     let n = cx.id;
